@@ -49,6 +49,7 @@ class FnSpec:
         self.attrs = attrs        # attributes inserted before the fn (e.g. #[verifier::...])
 
 
+PURE_LOG = {"as_raw", "display", "to_string", "to_str", "unwrap_or_default", "len", "as_str", "Some", "code"}
 GHOST_PARAM = "Tracked(w): Tracked<&mut World>"
 GHOST_ARG = "Tracked(&mut *w)"
 
@@ -87,7 +88,7 @@ class Piece:
         self.item = self.sf.items[0]
 
     def _expand_macros(self, text):
-        for _round in range(4):
+        for _round in range(200):
             toks = lex(text)
             hit = None
             for k, t in enumerate(toks):
@@ -99,6 +100,7 @@ class Piece:
                 return text
             k = hit
             params, body = self.unit.macros[toks[k].text]
+            fnform = self.unit.macro_fns.get(toks[k].text)
             kc = match_close(toks, k + 2)
             # split arguments at top-level commas
             args, cur, j = [], toks[k + 2].end, k + 3
@@ -115,7 +117,7 @@ class Piece:
                 args.append(last)
             if len(args) != len(params):
                 raise Undecided(f"macro {toks[k].text}: {len(args)} arguments for {len(params)} parameters")
-            exp = body
+            exp = body if fnform is None else fnform
             for pname, a in sorted(zip(params, args), key=lambda x: -len(x[0])):
                 exp = re.sub(r"\$" + pname + r"\b", lambda m: a, exp)
             if "$" in exp:
@@ -235,7 +237,8 @@ class Piece:
                     and toks[k + 2].text == "(" and toks[k - 1].text not in (":", "."):
                 close = match_close(toks, k + 2)
                 inner = toks[k + 3:close]
-                if any(x.text == "(" and i > 0 and inner[i - 1].kind == "ident" for i, x in enumerate(inner)):
+                if any(x.text == "(" and i > 0 and inner[i - 1].kind == "ident" and inner[i - 1].text not in PURE_LOG
+                       for i, x in enumerate(inner)):
                     raise Undecided(f"{fn.name}: log macro with a call in its arguments")
                 self._add(t.start, toks[close].end, "()", "T-LOG")
                 k = close
@@ -626,6 +629,7 @@ class Unit:
         self.drop_derives = set()
         self.pieces = []
         self.macros = {}   # name -> ([param names], body text)
+        self.macro_fns = {}  # name -> call template (T-MACRO-FN: the macro body lives in a verified helper fn)
         self.vacuity = False
         self.vacuity_expected = []
         self.module("", "")
@@ -692,6 +696,21 @@ class Unit:
             raise Undecided(f"macro {name}: more than one arm")
         body = sf.text[toks[bo].end:toks[bc].start]
         self.macros[name] = (params, body)
+
+    def macro_as_fn(self, relpath, name, module, header, subst, call, props=None):
+        """T-MACRO-FN: expand a statement macro into a call of a helper function whose body is the macro's own
+        text (metavariables replaced per `subst`), verified against `header`'s contract.  Used where inlining
+        N copies of a branching body makes the verifier's path count explode."""
+        self.macro(relpath, name)
+        params, body = self.macros[name]
+        b = body
+        for pname, rep in sorted(subst.items(), key=lambda x: -len(x[0])):
+            b = re.sub(r"\$" + pname + r"\b", lambda m: rep, b)
+        if "$" in b:
+            raise Undecided(f"macro {name}: unsubstituted metavariable in helper body")
+        self.raw(module, f"// T-MACRO-FN helper: body is the text of macro `{name}` in {relpath}\n{header}\n{{\n{b}\n}}\n")
+        self.macro_fns[name] = call
+        self.macro_fn_props = props or []
 
     def verify(self, relpath, spec, module, fns=None, props=None):
         return self.take(relpath, spec, module, "verify", fns, props)
